@@ -1060,6 +1060,6 @@ def replay(h, recipe):
 
 def checks(h):
     _init()
-    unit = h.scale(12, 120)
+    unit = h.scale(8, 120)
     for salt, (cname, strat, weight) in enumerate(campaigns()):
         h.hyp(cname, strat, lambda r, cname=cname: run_case(h, r, cname), unit * weight, salt + 1)
